@@ -16,13 +16,7 @@ import (
 //   oracle         : applying the same reversal (ordering "random", same seed => same criteria) twice restores
 //                    the data: exactly on dyadic grids, else 1e-9 relative; input state untouched
 
-func d1ReversedSX(rep []preference_reversal.ReversedPreferenceCriterion) SX {
-	out := make(sxList, len(rep))
-	for i, e := range rep {
-		out[i] = L(Str(e.Id), Str(string(e.Type)), L(Num(e.ValuesRange.Min), Num(e.ValuesRange.Max)), KMapF(e.AlternativesValues))
-	}
-	return out
-}
+
 
 func d1IsGridValue(v float64) bool { return math.Abs(v) <= 1<<20 && v*4 == math.Trunc(v*4) }
 
